@@ -181,6 +181,12 @@ func c08Script(r *core.Run, agentBin string, md *fakes.Metadata, si, rep int, ki
 		if k == "mixed" {
 			k = []string{"500", "garbage", "reset", "503-empty-body"}[i%4]
 		}
+		if k == "500" || k == "503-empty-body" {
+			// failing replies may carry advice the agent's back-off must not be shortened by
+			if v := []string{"0", "Wed, 21 Oct 2015 07:28:00 GMT", "", "1"}[i%4]; v != "" {
+				w.Header().Set("Retry-After", v)
+			}
+		}
 		switch k {
 		case "500":
 			http.Error(w, "scripted failure", 500)
